@@ -1,7 +1,7 @@
 """Registry: property id -> contract modules (each exports SPECS) and evidence/manifest metadata (plain data, no z3)."""
 REGISTRY = {
     'C16': {
-        'modules': ['contracts.static'], 'level': 'proof',
+        'modules': ['contracts.static', 'contracts.url_guard'], 'level': 'proof',
         'level_text': 'For all Range headers and lengths, and for all request paths / docroots / mount points, the contracts on '
                       'get_ranges, Static._on_request and serve_file are discharged on every path of the real functions (loop '
                       'invariants, no bound): every range lies inside the entity AND is exactly the RFC 7233 image of its '
@@ -14,7 +14,7 @@ REGISTRY = {
                       '(uninterpreted, axioms listed in evidence.trusted_base), int(str)/str.strip/str.split axiomatisation; front-end '
                       'URL sanitising is not assumed.',
         'explanation': 'contracts on get_ranges / Static._on_request / serve_file discharged path-wise by z3/cvc5',
-        'not_decided': ['URL.abspath/escape of the HTTP front-end guard'],
+        'not_decided': ['URL.escape (quote/unquote) of the HTTP front-end guard; URL.abspath is under contract at the level of its segment list since round 5 (join/split inverse not proved)'],
     },
     'C18': {
         'modules': ['contracts.line_irc'], 'level': 'proof',
